@@ -834,7 +834,10 @@ impl World {
 		for p in self.pays.iter() {
 			for path in p.paths.iter() {
 				for i in 0..path.nodes.len().saturating_sub(1) {
-					if path.nodes[i] == n && path.hop_amts[i + 1] == out_amt {
+					// claimed from an on-chain transaction: the amount is the output's, in whole sat
+					let same = path.hop_amts[i + 1] == out_amt
+						|| (onchain && path.hop_amts[i + 1] / 1000 * 1000 == out_amt);
+					if path.nodes[i] == n && same {
 						expect = Some((p.idx, path.hop_amts[i] - path.hop_amts[i + 1]));
 					}
 				}
@@ -842,7 +845,7 @@ impl World {
 		}
 		match (expect, fee) {
 			(Some((pi, e)), Some(f)) => {
-				if e != f {
+				if e != f && !onchain {
 					self.violate(
 						"C02",
 						"C02-5 PaymentForwarded reports a wrong fee",
